@@ -3,9 +3,9 @@ Theorems: Props/C16.v (NthDeriv.v over Coq's reals with Coquelicot: order n+1 is
 for 16 closed forms, all n, all points of the domain).
 Correspondence: the R-valued model is evaluated INSIDE Coq by the certified interval arithmetic of coq-interval at the very points
 where the implementation is run: |g_f n x - implementation| <= tol is proved per case.  Model-free predicate for every exported
-function (also those without a Coq model: erf, erfi, arcsin, arccos, arctan, arcsinh, arccosh, gammaln, psi, polygamma, hyperu, and
+function (also those without a Coq model: arcsin, arccos, arctan, arcsinh, arccosh, gammaln, psi, polygamma, hyperu, and
 the piecewise ones): mpmath's numerical differentiation at 50 digits (run in the separate python3-vt interpreter)."""
-import json, subprocess, re, os
+import json, subprocess, re, os, math
 from fractions import Fraction
 import numpy
 import lib
@@ -22,14 +22,14 @@ FUNCS = {
     'log1p': (GTM1, True), 'sqrt': (POS, True), 'square': (ALL, True), 'negative': (ALL, True), 'reciprocal': (NZ, True),
     'sin': (ALL, True), 'cos': (ALL, True), 'sinh': (ALL, True), 'cosh': (ALL, True), 'arctanh': (ABS1, True),
     'arcsin': (ABS1, False), 'arccos': (ABS1, False), 'arctan': (ALL, False), 'arcsinh': (ALL, False), 'arccosh': (GT1, False),
-    'erf': (ALL, False), 'erfi': ([(F(-3, 2), F(3, 2))], False), 'gammaln': (POS, False), 'psi': (POS, False),
+    'erf': (ALL, True), 'erfi': ([(F(-3, 2), F(3, 2))], True), 'gammaln': (POS, False), 'psi': (POS, False),
     'polygamma': (POS, False), 'hyperu': ([(F(1, 2), F(4))], False),
 }
 # the declared (open) domains themselves, for the special points 0, +-1/2, +-1, 2 that a random grid point rarely hits
 TRUE_DOM = {id(ALL): lambda x: True, id(POS): lambda x: x > 0, id(GTM1): lambda x: x > -1, id(ABS1): lambda x: abs(x) < 1,
             id(GT1): lambda x: x > 1, id(NZ): lambda x: x != 0}
 SPECIAL = [F(0), F(1), F(-1), F(1, 2), F(-1, 2), F(2)]
-UNFOLD = 'unfold g_exp, g_exp2, g_expm1, g_log2, g_log10, g_log, g_log1p, g_sqrt, g_square, g_negative, g_reciprocal, g_sin, g_cos, g_sinh, g_cosh, g_arctanh, msign, zfact, ln2; cbn'
+UNFOLD = 'unfold g_exp, g_exp2, g_expm1, g_log2, g_log10, g_log, g_log1p, g_sqrt, g_square, g_negative, g_reciprocal, g_sin, g_cos, g_sinh, g_cosh, g_arctanh, g_erf, g_erfi, erf_poly, erf_term, msign, ln2; cbn'
 
 
 def rlit(fr):
@@ -48,7 +48,7 @@ def main(tier, seed):
                 'that point against the implementation; all functions: mpmath numerical differentiation at 50 digits; piecewise constant/linear '
                 'functions away from their kinks; non-trivial = n>=1; distinct by (function, parameters, n, x)')
     rep.assumptions = ['the axioms of the standard library real numbers (ClassicalDedekindReals.sig_forall_dec, sig_not_dec, functional_extensionality_dep) and what Coquelicot/Interval add',
-                       'gammaln/psi/polygamma/hyperu/erf/erfi/arcsin/arccos/arctan/arcsinh/arccosh have no Coq model: decided against mpmath only',
+                       'gammaln/psi/polygamma/hyperu/arcsin/arccos/arctan/arcsinh/arccosh (and order 0 of erf/erfi, defined as the integral) have no evaluable Coq model: decided against mpmath only',
                        'tolerances: 1e-9 relative (interval check), 1e-7 relative against numerical differentiation']
     rep.theorems()
     rng = lib.rng_for(seed, PID)
@@ -66,7 +66,7 @@ def main(tier, seed):
             if name == 'polygamma':
                 prm = [rng.randint(0, 3)]
             if name == 'hyperu':
-                prm = [rng.choice([0.5, 1.0, 1.5, 2.25]), rng.choice([0.5, 1.5, 2.0, 3.25])]
+                prm = [rng.choice([0.5, 1.0, 1.5, 2.25, -0.5, -1.5, -2.5, 3.2]), rng.choice([0.5, 1.5, 2.0, 3.25, 0.3])]
             cases.append((name, prm, x, n, has_model))
         # special points of the domain, every order
         inside = TRUE_DOM.get(id(dom), (lambda x: x > 0) if name == 'hyperu' else (lambda x: True))
@@ -78,7 +78,7 @@ def main(tier, seed):
                 if name == 'polygamma':
                     prm = [rng.randint(0, 3)]
                 if name == 'hyperu':
-                    prm = [rng.choice([0.5, 1.0, 1.5, 2.25]), rng.choice([0.5, 1.5, 2.0, 3.25])]
+                    prm = [rng.choice([0.5, 1.0, 1.5, 2.25, -0.5, -1.5, -2.5, 3.2]), rng.choice([0.5, 1.5, 2.0, 3.25, 0.3])]
                 rep.count('special point', str(x))
                 cases.append((name, prm, x, n, has_model))
     # implementation values
@@ -112,7 +112,7 @@ def main(tier, seed):
             if not numpy.isfinite(y) or abs(y - ov) > 1e-7 * (1 + abs(ov)) * max(1, n) ** n:
                 rep.violation('oracle:%s' % name, 'nthderiv.%s(%s, n=%d) = %r but the %d-th derivative is %s' % (name, x, n, y, n, o), dict(kind='oracle', case=meta))
                 continue
-        if has_model and numpy.isfinite(y):
+        if has_model and numpy.isfinite(y) and not (name in ('erf', 'erfi') and n == 0):       # order 0 of erf/erfi is the integral itself
             tol = F(1, 10 ** 9) * (1 + abs(lib.frac(y)))
             goals.append((len(goals), 'Rabs (g_%s %d %s - %s) <= %s' % (name, n, rlit(x), rlit(lib.frac(y)), rlit(tol)), meta))
     # (a) interval evaluation of the Coq model
@@ -148,12 +148,18 @@ def main(tier, seed):
     return rep.finish()
 
 
-def run_interval(goals, per_file=60):
+def run_interval(goals, per_file=25):
     files = []
     for k, chunk in enumerate(lib.shard(goals, per_file)):
-        body = 'From Coq Require Import Reals ZArith.\nFrom Interval Require Import Tactic.\nFrom AlgoV Require Import NthDeriv.\nLocal Open Scope R_scope.\n'
+        # zfact m = IZR (Z.of_nat (fact m)): unfolding it by cbn builds m! in unary (9! = 362880 stalls interval for minutes), so the
+        # factorials are replaced by binary literals, each replacement proved by vm_compute
+        body = ('From Coq Require Import Reals ZArith.\nFrom Interval Require Import Tactic.\nFrom AlgoV Require Import NthDeriv NthDerivErf.\nLocal Open Scope R_scope.\n'
+                'Local Arguments zfact : simpl never.\n'
+                'Ltac zf m v := try replace (zfact m) with (IZR v) by (unfold zfact; apply f_equal; vm_compute; reflexivity).\n')
         for idx, stmt, meta in chunk:
-            body += 'Goal %s.\nProof. %s. first [ interval with (i_prec 90); idtac "IVOK %d" | idtac "IVFAIL %d" ]. Abort.\n' % (stmt, UNFOLD, idx, idx)
+            n = meta['n']
+            zfs = ' '.join('zf %d%%nat %d%%Z.' % (m, math.factorial(m)) for m in range(0, n + 1))
+            body += 'Goal %s.\nProof. %s. %s first [ interval with (i_prec 90); idtac "IVOK %d" | idtac "IVFAIL %d" ]. Abort.\n' % (stmt, UNFOLD, zfs, idx, idx)
         files.append(('iv_C16_%03d' % k, body))
     res = lib.run_case_files(PID, files, timeout=900)
     ok = {}
